@@ -466,7 +466,15 @@ func (ex *Exec) newIterator(st *State, s *StoreV, prefix, lo, hi *Term, reverse 
 
 func pbTag(t types.Type, codec string) string {
 	t = derefType(t)
-	return codec + "_" + typeTag(t)
+	// qualify by the last two elements of the package path: several modules have a types.GenesisState, types.Params, ...
+	s := types.TypeString(t, func(p *types.Package) string {
+		parts := strings.Split(p.Path(), "/")
+		if len(parts) > 2 {
+			parts = parts[len(parts)-2:]
+		}
+		return strings.Join(parts, "_")
+	})
+	return codec + "_" + strings.NewReplacer("*", "P", ".", "_", "[", "_", "]", "_", " ", "", "/", "_", "{", "", "}", "", "-", "_").Replace(s)
 }
 
 func (ex *Exec) marshal(st *State, short, method string, sig *types.Signature, recv Val, args []Val, call *ssa.Call) []Result {
